@@ -65,6 +65,13 @@ func (ts *TermStore) Wrap(it IntTy, x *Term) *Term {
 	if ts.fits(it, x) {
 		return x
 	}
+	// a choice among constants (e.g. 1<<n - 1 for a small n) wraps leaf by leaf and stays a choice among constants,
+	// which keeps later bit operations on it arithmetic
+	if x.op == "ite" {
+		if r, ok := ts.liftIte(x, func(c *Term) *Term { return ts.Wrap(it, c) }); ok {
+			return r
+		}
+	}
 	m := ts.BigInt(pow2(it.bits))
 	// a value that can be off by at most one modulus (the usual case: a sum or difference of two in-range
 	// values) wraps with a comparison instead of a mod, which linear solvers handle far better
